@@ -856,6 +856,27 @@ func (fg *FG) ret(b *ssa.BasicBlock, st *State, t *ssa.Return, pkg *types.Packag
 	}
 	for _, pth := range paths {
 		env := fg.envAt(pth.st, pkg, nil)
+		if len(fg.c.GhostSets) > 0 {
+			genv := fg.envAt(pth.st, pkg, nil)
+			for i, rv := range t.Results {
+				if i < len(fg.results) {
+					v := fg.val(rv)
+					genv.vars[fg.results[i]] = Val{T: v.T, Ty: fg.fn.Signature.Results().At(i).Type(), Clo: v.Clo}
+				}
+			}
+			for _, gs := range fg.c.GhostSets {
+				l := fg.specLoc(gs[0].E, genv)
+				if l.Kind != LGhost {
+					fg.fail("ghostset: %s is not a ghost field", gs[0].Src)
+				}
+				v := genv.tr(gs[1].E)
+				saved := fg.R[fg.curBlock]
+				fg.R[fg.curBlock] = pth.cond
+				fg.store(pth.st, l, v.T)
+				fg.R[fg.curBlock] = saved
+			}
+			env = fg.envAt(pth.st, pkg, nil)
+		}
 		for i, rv := range t.Results {
 			v := fg.val(rv)
 			if v.Loc != nil && v.T == "" {
